@@ -70,6 +70,10 @@ func genC14(r *Rng, tier string) *World {
 		if !hasNested {
 			root.Fields = append(root.Fields, &Field{Key: "sub", N: genKind(r, &c, "struct", 1)})
 		}
+		if fam == "nested-json" && r.P(0.3) {
+			ek := Pick(r, []string{"int", "float", "bool", "string"})
+			root.Fields = append(root.Fields, &Field{Key: "grid", N: &Node{Kind: "slice", Elem: &Node{Kind: "slice", Elem: &Node{Kind: ek, Req: r.P(0.5)}}}})
+		}
 		{
 			// tags below the root record are the open finding F-TAGS (C10)
 			for _, f := range root.Fields {
@@ -138,6 +142,18 @@ func genC14(r *Rng, tier string) *World {
 		case "slice":
 			if r.P(0.2) {
 				return Val{}, false
+			}
+			if n.Elem.Kind == "slice" {
+				// a list of lists of scalars (JSON documents and Go values only)
+				l := VL()
+				for i := 0; i < 1+r.Intn(2); i++ {
+					in := VL()
+					for j := 0; j < 1+r.Intn(3); j++ {
+						in.L = append(in.L, genTyped(r, n.Elem.Elem.Kind))
+					}
+					l.L = append(l.L, in)
+				}
+				return l, true
 			}
 			l := VL()
 			for i := 0; i < 1+r.Intn(3); i++ {
